@@ -99,6 +99,31 @@ Definition ambient_allowed : list string := [
 Theorem C01_fact_ambient : unlisted ambient_allowed ambient_sites = [].
 Proof. vm_compute. reflexivity. Qed.
 
+(* ... and WHO CALLS a function that contains such a site is audited as well: a state-machine function that
+   starts calling one of them (a store that fills in a missing request id with GenerateRequestID, a handler
+   that stamps a record with a job-creation helper) makes the value it gets part of consensus state.  The
+   callers below are start-up, the block ender's two internal-transaction loops (the UUID is the memo of a
+   transaction that is never stored) and job-bus jobs. *)
+Definition ambient_callers_allowed : list (string * string) := [
+  ("app:App.Prepare", "app:App.Start");
+  ("app:ExpireProposals", "app:App.blockEnder"); ("app:FinalizeProposals", "app:App.blockEnder");
+  ("app:newContext", "app:NewApp");
+  ("data/keys:buildFileName", "data/keys:KeyStore.SaveKeyData");
+  ("event:BroadcastGovExpireVotesTx", "event:JobGovCheckVotes.DoMyJob");
+  ("event:BroadcastGovFinalizeVotesTx", "event:JobGovFinalizeProposal.DoMyJob");
+  ("event:BroadcastReportFinalityETHTx", "event:JobETHBroadcast.DoMyJob");
+  ("event:BroadcastReportFinalityETHTx", "event:JobETHCheckFinality.DoMyJob");
+  ("event:BroadcastReportFinalityETHTx", "event:JobETHSignRedeem.DoMyJob");
+  ("event:BroadcastReportFinalityETHTx", "event:JobETHVerifyRedeem.DoMyJob");
+  ("event:NewBTCCheckFinalityJob", "event:ReportBroadcastSuccess")
+]%string.
+
+Definition unlisted_pairs (allowed l : list (string * string)) : list (string * string) :=
+  filter (fun '(a, b) => negb (existsb (fun '(a', b') => String.eqb a a' && String.eqb b b') allowed)) l.
+
+Theorem C01_fact_ambient_callers : unlisted_pairs ambient_callers_allowed ambient_callers = [].
+Proof. vm_compute. reflexivity. Qed.
+
 Example C01_facts_nonvacuous :
   (20 <=? Z.of_nat (List.length map_range_sites)) = true /\
   (10 <=? Z.of_nat (List.length ambient_sites)) = true /\
